@@ -264,8 +264,12 @@ func corpusSizes() {
 	// (BIP342: "the script size limit of 10000 bytes does not apply", nor does the 201-opcode limit)
 	tk, lk := newTapKey(g), newTapKey(g)
 	full := uint32(script.VER_P2SH | script.VER_WITNESS | script.VER_TAPROOT)
-	for _, n := range []int{9999, 10000, 10001, 10002, 20000} {
-		for _, fl := range tapFlags {
+	leafSizes, leafFlags := []int{10000, 10001, 20000}, []uint32{consensusFlags, script.STANDARD_VERIFY_FLAGS, consensusFlags &^ script.VER_TAPROOT}
+	if r.Tier == "thorough" {
+		leafSizes, leafFlags = []int{9999, 10000, 10001, 10002, 20000, 100000}, tapFlags
+	}
+	for _, n := range leafSizes {
+		for _, fl := range leafFlags {
 			scr := cat(rep(0x61, n-1), []byte{0x51})
 			pk, control, _ := tapWrap(tk, scr)
 			c := base1(fmt.Sprintf("limit:tapscript-leaf-size-%d", n), pk, 9000, fl)
@@ -273,7 +277,7 @@ func corpusSizes() {
 			c.Expect = "OK"
 			c.Note = fmt.Sprintf("tapscript of %d bytes: %d NOPs, OP_1", n, n-1)
 			run(c)
-			if n < 10001 || n > 10001 && n != 20000 {
+			if n != 10001 && n != 20000 {
 				continue
 			}
 			// with a signature check behind the NOPs
@@ -290,6 +294,34 @@ func corpusSizes() {
 				c.setWit(cat(rep(0x61, n-1), []byte{0x51}))
 				c.Expect = "ERR"
 				c.Note = "witness-v0 script above 10000 bytes"
+				run(c)
+			}
+		}
+	}
+
+	// ---- every opcode byte as the first opcode of a tapscript leaf `<op> OP_1`, and behind a push that does not cover
+	// it: BIP342's OP_SUCCESSx list (80, 98, 126-129, 131-134, 137-138, 141-142, 149-153, 187-254; written down here, not
+	// taken from the code or the reference) makes the spend valid whatever else the script holds, and invalid under the
+	// policy flag DISCOURAGE_OP_SUCCESS
+	isSuccess := func(op int) bool {
+		return op == 80 || op == 98 || (op >= 126 && op <= 129) || (op >= 131 && op <= 134) || op == 137 || op == 138 ||
+			op == 141 || op == 142 || (op >= 149 && op <= 153) || (op >= 187 && op <= 254)
+	}
+	for op := 0; op < 256; op++ {
+		for vi, scr := range [][]byte{{byte(op), 0x51}, {0x51, 0x01, 0xff, byte(op), 0x6a}} {
+			if vi == 1 && !isSuccess(op) {
+				continue
+			}
+			for _, fl := range []uint32{consensusFlags, consensusFlags | script.VER_DIS_SUCCESS} {
+				pk, control, _ := tapWrap(tk, scr)
+				c := base1(fmt.Sprintf("opsuccess:op-%02x-v%d", op, vi), pk, 9000, fl)
+				c.setWit(scr, control)
+				if isSuccess(op) {
+					c.Expect, c.Note = "OK", fmt.Sprintf("opcode %d is OP_SUCCESSx", op)
+					if fl&script.VER_DIS_SUCCESS != 0 {
+						c.Expect = "ERR"
+					}
+				}
 				run(c)
 			}
 		}
